@@ -52,7 +52,7 @@ FILLERS = ["", "", "   ", "# comment", "#", "# @assert false", "uint8 f{n}", "bo
            "@assert 'multi\nline' != ''", "@assert \"a\n\nb\" != 'x'", "uint8[<=3] h{n}  # trailing", "float32 k{n}"]
 
 
-def build_text(rng, special_lines, refs, crlf, n_before=None):
+def build_text(rng, special_lines, refs, crlf, n_before=None, service=False):
     """
     Returns (text, start_line_of_special, line_count_of_special).  special_lines: list of physical lines (a statement may
     itself contain raw newlines: count them).  refs: statements that reference the next definition in the chain.
@@ -70,6 +70,11 @@ def build_text(rng, special_lines, refs, crlf, n_before=None):
     ref_at = rng.randrange(len(lines) + 1)
     for r in refs:
         lines.insert(ref_at, r)
+    if service:
+        # the special statement sits in the response section of a service definition
+        lines += ["@sealed", "---" + "-" * rng.randrange(0, 3)]
+        for _ in range(rng.randrange(0, 4)):
+            lines.append(filler())
     text_before = "\n".join(lines)
     start = text_before.count("\n") + (2 if lines else 1)
     body = list(lines) + list(special_lines)
@@ -109,8 +114,9 @@ def gen_case(rng):
             if mode == "fault":
                 kind, stmts, has_line = rng.choice(FAULTS)
                 stmts = [s.replace("{root}", root).replace("{self}", nm) for s in stmts]
-                text, start, span = build_text(rng, stmts, refs, crlf)
-                special = {"mode": "fault", "kind": kind, "start": start, "span": span, "has_line": has_line, "file": nm}
+                svc = depth == 0 and rng.random() < 0.25
+                text, start, span = build_text(rng, stmts, refs, crlf, service=svc)
+                special = {"mode": "fault", "kind": kind + ("-in-response" if svc else ""), "start": start, "span": span, "has_line": has_line, "file": nm}
             else:
                 k = rng.choice([1, 2, 3])
                 tags = [rng.randrange(10 ** 6, 10 ** 7) for _ in range(k)]
@@ -119,7 +125,7 @@ def gen_case(rng):
                     stmts.append(rng.choice(["@print %d", "@print   %d + 0", "@print %d # remark"]) % t)
                     if rng.random() < 0.4:
                         stmts.append(rng.choice(["", "# c", "uint8 p%d" % t]))
-                text, start, span = build_text(rng, stmts, refs, crlf)
+                text, start, span = build_text(rng, stmts, refs, crlf, service=(depth == 0 and rng.random() < 0.25))
                 # line of every tag
                 plain = text.replace("\r\n", "\n").split("\n")
                 where = {}
